@@ -108,6 +108,37 @@ pub fn box_configs(ts: &[u16], max_kt: u64, max_z: u64, max_al: u16) -> Vec<(u64
     v
 }
 
+/// wide shapes: larger T (many sub-blocks, several alignments), more symbols and blocks, F only at the
+/// remainders that matter (exact multiple, 1..2 bytes short, half a symbol, one byte into the last symbol)
+pub fn wide_configs(ts: &[u16], max_kt: u64, max_z: u64) -> Vec<(u64, u16, u8, u16, u8)> {
+    let mut v = vec![];
+    for &t in ts {
+        for al in 1..=t {
+            if t % al != 0 || al > 255 {
+                continue;
+            }
+            for n in 1..=(t / al) {
+                for kt in 1..=max_kt {
+                    let mut rs: Vec<u64> = vec![0, 1, 2, t as u64 / 2, t as u64 - 1];
+                    rs.retain(|&r| r < t as u64);
+                    rs.sort_unstable();
+                    rs.dedup();
+                    for r in rs {
+                        let f = kt * t as u64 - r;
+                        if f == 0 {
+                            continue;
+                        }
+                        for z in 1..=kt.min(max_z) {
+                            v.push((f, t, z as u8, n, al as u8));
+                        }
+                    }
+                }
+            }
+        }
+    }
+    v
+}
+
 pub fn run(ctx: &Ctx) -> i32 {
     let st = Stats::new();
     // Partition[I, J]
@@ -134,12 +165,13 @@ pub fn run(ctx: &Ctx) -> i32 {
     // configuration box
     let ts: Vec<u16> = if ctx.quick() { (1..=10).collect() } else { (1..=12).chain([16, 24, 32]).collect() };
     let mut cfgs = box_configs(&ts, 8, 4, 8);
-    if ctx.thorough() {
-        // second box: more symbols and more blocks at small T
-        cfgs.extend(box_configs(&[1, 2, 3, 4, 6], 14, 7, 8));
-        cfgs.sort_unstable();
-        cfgs.dedup();
-    }
+    // second box: more symbols and more blocks at small T
+    cfgs.extend(box_configs(&[1, 2, 3, 4, 6], 14, 7, 8));
+    // third box: wide symbols (up to 64 sub-blocks), up to 16 symbols and 9 blocks
+    let wide_ts: Vec<u16> = if ctx.quick() { vec![12, 15, 16, 20, 24, 30, 32] } else { vec![12, 13, 14, 15, 16, 18, 20, 21, 24, 27, 28, 30, 32, 36, 40, 48, 60, 64] };
+    cfgs.extend(wide_configs(&wide_ts, if ctx.quick() { 12 } else { 16 }, if ctx.quick() { 7 } else { 9 }));
+    cfgs.sort_unstable();
+    cfgs.dedup();
     par_for_chunk(cfgs.len(), 64, |i| {
         let (f, t, z, n, al) = cfgs[i];
         st.eval(1);
@@ -187,7 +219,7 @@ pub fn run(ctx: &Ctx) -> i32 {
     st.sample(json!({"partition":[10,3],"reference":format!("{:?}", rfcref::partition(10,3))}));
     finish(ctx, &st, Finish {
         level: "exploration",
-        rule: format!("every (F,T,Z,N,Al) with T in {:?}, Al|T (Al<=8), 1<=N<=T/Al, ceil(F/T)<=8, 1<=Z<=min(ceil(F/T),4) (thorough: also T in {{1,2,3,4,6}} with ceil(F/T)<=14, Z<=7), data pos: packet count, IDs (SBN ascending, ESI 0..K-1), payload length T, every payload byte against the reference (SBN,ESI,byte)->object offset/PAD map, calculate_block_offsets, and a Decoder fed the packets in reverse order must return the object; partition(I,J) for all I<=2048, J<=255 and I=56403k+-1; encode-only layouts for {} big shapes. distinct_nontrivial = configurations with Z>1 or N>1.", ts, big.len()),
+        rule: format!("every (F,T,Z,N,Al) with T in {:?}, Al|T (Al<=8), 1<=N<=T/Al, ceil(F/T)<=8, 1<=Z<=min(ceil(F/T),4) plus T in {{1,2,3,4,6}} with ceil(F/T)<=14, Z<=7, plus wide symbols T in {:?} (every Al|T, every N<=T/Al) with ceil(F/T)<={}, Z<={}, F = ceil(F/T)*T - {{0,1,2,T/2,T-1}}; data pos: packet count, IDs (SBN ascending, ESI 0..K-1), payload length T, every payload byte against the reference (SBN,ESI,byte)->object offset/PAD map, calculate_block_offsets, and a Decoder fed the packets in reverse order must return the object; partition(I,J) for all I<=2048, J<=255 and I=56403k+-1; encode-only layouts for {} big shapes. distinct_nontrivial = configurations with Z>1 or N>1.", ts, wide_ts, if ctx.quick() { 12 } else { 16 }, if ctx.quick() { 7 } else { 9 }, big.len()),
         exhaustive: false,
         assumptions: vec!["reference layout written from RFC 6330 4.4.1.2 (rfcref::layout), self-checked to be a bijection object offset <-> (SBN,ESI,byte)".into()],
         extra: Map::new(),
